@@ -245,6 +245,11 @@ APPEND = {
     ("C03_p_sl_atomicity", "p_sl_atomicity", "RMW atomicity likewise"),
     ("C03_p_sl_coherence", "p_sl_coherence", "CoRR / CoWR / RMW coherence between any two states of any iteration"),
     ("C03_p_sl_check_all_good", "p_sl_check_all_good", "the same for the begin path of every record Builder::check returns"),
+    ("C03_p_mp_all_good", "p_mp_all_good", "the same with NO hypothesis for a program with an RMW (message passing with a release store, fetch_add(AcqRel) and relaxed loads), for the atomic the RMW acts on: all 72 iterations"),
+    ("C03_p_mp_atomicity", "p_mp_atomicity", "RMW atomicity in every reachable state of every iteration of it"),
+    ("C03_p_mp_coherence", "p_mp_coherence", "coherence between any two states of any iteration of it"),
+    ("C03_e_mp_rmw_store", "e_mp_rmw_store", "a reachable state of it really contains a live RMW store (slot 2, source slot 1)"),
+    ("C03_p_mp_atomicity_instance", "p_mp_atomicity_instance", "and the atomicity conclusion instantiated at that state: the source is mo-before the RMW store and no live store is between them"),
     ("C03_side_instance", "side_instance", "one concrete reachable access at which every clause of SideOK holds non-trivially: a candidate list of length >= 2, the replayed index in it, three stores in the ring"),
  ])],
  "C02": [("LV.AtomicFacts LV.AtomicCoherence", "Nothing allowed is pruned without a reason: the candidate set is never empty and contains every mo-maximal store (AtomicCoherence.v)", [
